@@ -67,9 +67,10 @@ def typed_value(v: Any) -> Any:
 
 
 class ENode:
-    __slots__ = ("cls", "props", "kids", "origin", "uid")
+    __slots__ = ("cls", "props", "kids", "origin", "uid", "det")
 
-    def __init__(self, cls: str, props: dict, kids: dict, origin: list, uid: int) -> None:
+    def __init__(self, cls: str, props: dict, kids: dict, origin: list, uid: int, det: bool = False) -> None:
+        self.det = det  # detach_self() right after construction (a later twin may take over its id)
         self.cls = cls
         self.props = props  # field -> decoded python value (init props only)
         self.kids = kids  # field -> ENode | None | list[ENode]
@@ -131,12 +132,15 @@ class Expander:
             cands = [d for d in self.done if any(M.is_subclass(d.cls, c) for c in classes)]
             if not cands:
                 return self._fallback(classes, n)
-            target = cands[n % len(cands)]
+            target = cands[-1] if n == -1 else cands[n % len(cands)]
             if "$share" in spec and self.allow_share:
                 self.n_shared += 1
                 return target
             self.n_twins += 1
-            return self._copy(target)
+            c = self._copy(target)
+            if "nc" in spec and any(f.name == "nc" for f in M.prop_fields(c.cls)):
+                c.props["nc"] = spec["nc"]  # twin that differs in a non-comparable property only
+            return c
         return self.node(spec)
 
     def node(self, spec: dict) -> ENode:
@@ -152,7 +156,7 @@ class Expander:
                 kids[f.name] = [self.slot(x, f.classes) for x in (v or [])]
             else:  # fixed
                 kids[f.name] = [self.slot(x, f.fixed[i]) for i, x in enumerate(v)]
-        e = ENode(cn, props, kids, spec.get("o", ["no"]), self._new_uid())
+        e = ENode(cn, props, kids, spec.get("o", ["no"]), self._new_uid(), bool(spec.get("det")))
         self.done.append(e)
         return e
 
@@ -236,6 +240,8 @@ class Built:
         for k, v in e.props.items():
             kw[k] = v
         node = M.cls(e.cls)(origin=og.build_origin(e.origin, self.sources), **kw)
+        if e.det:
+            node.detach_self()
         self.live[e.uid] = node
         return node
 
@@ -382,8 +388,10 @@ class TreeGen:
         wide: bool = True,
         origin_index: int = 30,
         extra_leaves: tuple[str, ...] = (),
+        detach_rate: float = 0.0,
     ) -> None:
         self.extra_leaves = extra_leaves
+        self.detach_rate = detach_rate
         self.leaves = leaves
         self.width = width
         self.share = share
@@ -421,7 +429,11 @@ class TreeGen:
     def leaf_of(self, cn: str):
         from hypothesis import strategies as st
 
-        return st.fixed_dictionaries({"c": st.just(cn), "p": self.props(cn), "o": self.origin()})
+        d = {"c": st.just(cn), "p": self.props(cn), "o": self.origin()}
+        if self.detach_rate > 0:
+            k = max(1, round(1 / self.detach_rate) - 1)
+            d["det"] = st.sampled_from([False] * k + [True])
+        return st.fixed_dictionaries(d)
 
     def leaf(self):
         from hypothesis import strategies as st
@@ -445,6 +457,9 @@ class TreeGen:
             opts.append(st.integers(0, 30).map(lambda n: {"$share": n}))
         if self.twins:
             opts.append(st.integers(0, 30).map(lambda n: {"$twin": n}))
+            if self.detach_rate > 0:
+                opts.append(st.tuples(st.integers(0, 30), st.sampled_from(["", "t1", "t2"])).map(
+                    lambda t: {"$twin": t[0], "nc": t[1]}))
         return st.one_of(*opts) if opts else None
 
     def slot(self, children):
@@ -505,6 +520,14 @@ class TreeGen:
             }
         )
         opts = [uni, seq, mixed, inh]
+        if self.detach_rate > 0:
+            # a detached leaf directly followed by a twin that takes over its id and differs
+            # only in a non-comparable property
+            det_leaf = self.leaf_of("Vals").map(lambda d: {**d, "det": True})
+            pair = st.tuples(det_leaf, st.sampled_from(["", "second"]), st.lists(slot, max_size=2)).map(
+                lambda t: {"c": "Mixed", "o": ["no"], "p": {},
+                           "k": {"child": None, "items": [t[0], {"$twin": -1, "nc": t[1]}, *t[2]]}})
+            opts.append(pair)
         if self.wide:
             cheap = st.one_of(self.leaf_of("LeafA"), self.leaf_of("LeafB"), self.leaf_of("SubLeafA"))
             wide = st.fixed_dictionaries(
